@@ -147,3 +147,30 @@ contract('odml/validation.py::Validation.error',
          raises={},
          props=('C08', 'C09'),
          note='the collector appends unconditionally: no issue is dropped, merged or reordered')
+
+
+# ---- C08: the two sibling-uniqueness rules never fire on a well-formed tree -------------------------
+# (sibling names are unique by Inv.I6, hence so are the (name, type) pairs; the rules exist for ill-formed
+#  input.  The reporting loop of object_unique_names is therefore unreachable in every verified context.)
+contract('odml/validation.py::object_unique_names', types={'obj': ('BaseSection', 'BaseDocument')},
+         requires='True', ensures=[], raises={}, invariants={0: 'False'}, pure=True,
+         props=('C08',), note='carrier of the loop invariant only; inlined into its two callers')
+
+_TYPES_OK = ('all(attr(item(field(obj, "_sections"), j), "type", "BaseSection") is None or '
+             'is_str(attr(item(field(obj, "_sections"), j), "type", "BaseSection")) '
+             'for j in range(llen(field(obj, "_sections"))))')
+contract('odml/validation.py::section_unique_name_type',
+         types={'obj': ('BaseSection', 'BaseDocument')}, pure=True,
+         requires=_TYPES_OK,
+         ensures=['len(result) == 0'],
+         raises={},
+         props=('C08', 'C19'),
+         note='no false positive: on a tree with unique sibling names no name/type issue is reported')
+
+contract('odml/validation.py::property_unique_names',
+         types={'obj': 'BaseSection'}, pure=True,
+         requires='True',
+         ensures=['len(result) == 0'],
+         raises={},
+         props=('C08', 'C19'),
+         note='no false positive: on a tree with unique sibling names no property-name issue is reported')
